@@ -1168,6 +1168,8 @@ def main(outfile):
                                write_if_changed=write_if_changed, block=block))
     import py2lean_fsm
     py2lean_fsm.main_fsm(os.path.join(os.path.dirname(outfile), 'TranslatedFsm.lean'), sys.modules[__name__])
+    import py2lean_validate                                      # separate module: _Validation / Input / InputExp (C17)
+    py2lean_validate.main_validate(os.path.join(os.path.dirname(outfile), 'TranslatedValidate.lean'), write_if_changed)
 
 
 if __name__ == '__main__':
